@@ -1124,6 +1124,9 @@ func (c *Ctx) Script(asserts []*Term, opts ScriptOpts) string {
 	for _, a := range all {
 		walk(a)
 	}
+	for _, a := range opts.GetValues {
+		walk(a)
+	}
 	// symbol-triggered axioms (fixpoint)
 	doneSym := map[string]bool{}
 	for changed := true; changed; {
